@@ -296,15 +296,23 @@ func codecsPhase(r *rng.R, thorough bool) {
 					emit("cx str", hx([]byte(s)))
 					propFail("C20 overread-bytes case=%s string decoder returned data past the end", name)
 				}
-				var b bool
-				err = bd.Decode(&b)
-				bi := 0
-				if b {
-					bi = 1
+				// a bit column is zero padded to a whole byte, so up to 7 reads past the last value
+				// still fall inside the column; the 8th read past the values is certainly beyond it.
+				var lastErr error
+				for q := 0; q < 8; q++ {
+					var b bool
+					lastErr = bd.Decode(&b)
+					bi := 0
+					if b {
+						bi = 1
+					}
+					emit("cx bool", fmt.Sprintf("%d eof=%d", bi, eofFlag(lastErr)))
+					if lastErr != nil {
+						break
+					}
 				}
-				emit("cx bool", fmt.Sprintf("%d eof=%d", bi, eofFlag(err)))
-				if err == nil {
-					propFail("C20 overread-56 case=%s bool decoder returned a value past the end of its column (phantom bits) with Error()==nil", name)
+				if lastErr == nil {
+					propFail("C20 overread-56 case=%s bool decoder returned 8 values past the last one (beyond the end of its column) with Error()==nil", name)
 				}
 				stats["overread-probes"]++
 			}
